@@ -474,8 +474,8 @@ SPECS["C17"] = v1spec(
     "TestVerifC17", "stringclassifier/searchset", ["searchset"],
     title="v1 token offsets and candidate ranges always delimit real text",
     exhaustive=True,
-    rule=("(1) tokenizer invariants (text == s[Offset:Offset+len], increasing non-overlapping tokens, every non-space rune covered, no whitespace inside a token) on EVERY string of length <= 6 (quick) / 8 (thorough) "
-          "over the 7-symbol alphabet {a, b, space, '.', newline, 0xFF, e-acute} (exhaustive=true refers to this sub-space), plus seeded long strings over a 14-symbol alphabet incl. NBSP, CJK, combining marks, "
+    rule=("(1) tokenizer invariants (text == s[Offset:Offset+len], increasing non-overlapping tokens, every non-space rune covered, no whitespace inside a token) on EVERY string of length <= 6 (quick) / 7 (thorough) "
+          "over the 8-symbol alphabet {a, b, space, '.', newline, 0xFF, e-acute, a literal U+FFFD} (exhaustive=true refers to this sub-space), plus seeded long strings over a 14-symbol alphabet incl. NBSP, CJK, combining marks, "
           "U+2028, truncated UTF-8; (2) FindPotentialMatches invariants (candidates non-empty, ordered by target position, inside the target's token bounds, byte range 0 <= start <= end <= len(target)) on seeded "
           "(source, target) pairs from vocabularies of 2-8 one-letter words (highly repetitive), lengths 3-40, with/without an embedded copy, several separators incl. invalid bytes. "
           "case = one block of strings / 500 pairs; non-trivial = block judged (pairs: at least one candidate); distinct = block."),
